@@ -24,7 +24,7 @@ CHECKS = {
          "Every length 0..64 x five contents (exhaustive) and seeded structured/incompressible buffers up to MiBs are compressed by mtbl_compress and mtbl_compress_level (levels from far below the minimum to far above the maximum), copied to an exact-size buffer, decompressed and compared; aborts are observed as process deaths; names round-trip and unknown names / out-of-enum types are refused. Plus lazily mapped zero buffers of 2^31..2^33 bytes, 0.5-2 GiB incompressible buffers, and every string at edit distance one from an algorithm name.",
          "trusted: gcc ASan; compress failure is allowed by the statement and only counted", "DESIGN.md §4 C15"),
  "C17": ("exploration", "runtime differential monitor vs bit-at-a-time CRC-32C on exact-size ASan buffers; all lengths 0..1100 x alignments 0..7, both implementations called directly",
-         "mtbl_crc32c, my_crc32c_slicing and (when the CPU has SSE4.2) my_crc32c_sse42 are compared with a bitwise reference on every length 0..1100 at every alignment, every byte value at every position mod 8, RFC 3720 vectors, random buffers and five sparse buffers of 2^31-5 .. 2^32+8005 bytes (reference built from a GF(2) zero-run operator); the table-driven path is also forced through the public entry point. Two runs per build execute as a CPU without SSE4.2 (link-time shim on the CPU-feature question) so the library's own fallback selection is observed; thorough adds a 32 GiB buffer.",
+         "mtbl_crc32c, my_crc32c_slicing and (when the CPU has SSE4.2) my_crc32c_sse42 are compared with a bitwise reference on every length 0..1100 at every alignment, every byte value at every position mod 8, RFC 3720 vectors, random buffers and five sparse buffers of 2^31-5 .. 2^32+8005 bytes (reference built from a GF(2) zero-run operator); the table-driven path is also forced through the public entry point. Two runs per build execute as a CPU without SSE4.2 (link-time shim on the CPU-feature question) so the library's own fallback selection is observed; thorough adds a 32 GiB buffer. The feature test itself is run on four emulated CPU models (CPUID faulting + SIGSEGV handler rewriting the SSE4.1/SSE4.2 bits) where the kernel allows it.",
          "trusted: 8-line bitwise CRC in harness/h_c17.c (self-checked against RFC 3720 vectors); hardware path covered only if cpuid reports SSE4.2", "DESIGN.md §4 C17"),
  "C08": ("exploration", "runtime reference-model monitor of every mtbl_writer_add return value over adversarial key sequences; finished file vs accepted subsequence; pre-existing targets snapshot-compared",
          "Add sequences with ~40% deliberately non-increasing keys (equal, proper prefix, byte lowered, 0xff tails, bytes crossing 0x7f/0x80, empty first key) are fed to the real writer; each return value is compared with the model (key > last accepted, own unsigned comparator), the finished file (independent decoder, real reader, count_entries) with the accepted subsequence; mtbl_writer_init on six kinds of pre-existing target must return NULL and leave lstat+content unchanged. Thorough: keys of 2^31+1 bytes against their own prefixes/extensions and a 16-byte key with a value of UINT32_MAX-8 bytes.",
@@ -33,7 +33,7 @@ CHECKS = {
          "The same logical content is encoded by harness/refenc.c under random legal choices (v1/v2, restart sets from every entry to only the first, non-maximal sharing, separators anywhere in the legal interval, block cuts, six compression types by direct library calls, foreign prefix, index-block choices), self-checked by the independent decoder, then read by the real reader: full iteration, derived lookups, random seek histories, directed block-gap seek sequences, with and without verify_checksums; a data block above 4 GiB with a 64-bit restart array and restart points above UINT32_MAX is built as a sparse file and iterated, looked up and sought.",
          "trusted: harness/refenc.c + refdec.c (cross-checked against /repo/t sample files and the real reader at start-up)", "DESIGN.md §4 C11"),
  "C12": ("fault_enumeration", "bit-flip fault injection into block crc+payload; outcomes observed through the real mtbl_verify tool and a forked verifying reader streaming returned entries over a pipe",
-         "Exhaustive single-bit flips over every block (crc field + stored bytes, index included) of small files, seeded double/triple-bit and burst<=32 faults on larger/compressed files hitting first/middle/last/index blocks; for each fault the real mtbl_verify must not print OK / exit 0 and a verifying reader (iterate, get, get_prefix, get_range, iter+seek) must not hand out any entry of the damaged block; intact files of every configuration must verify and read completely. The reader options are set through five setter call patterns and mtbl_verify is also run with an intact file before/after the damaged one on its command line.",
+         "Exhaustive single-bit flips over every block (crc field + stored bytes, index included) of small files, seeded double/triple-bit and burst<=32 faults on larger/compressed files hitting first/middle/last/index blocks; for each fault the real mtbl_verify must not print OK / exit 0 and a verifying reader (iterate, get, get_prefix, get_range, iter+seek) must not hand out any entry of the damaged block; intact files of every configuration must verify and read completely. The reader options are set through five setter call patterns and mtbl_verify is also run with an intact file before/after the damaged one on its command line. A sixth access path seeks past the damaged block and back into it.",
          "trusted: block extents from harness/refdec.c; fault classes restricted to those CRC-32C guarantees to detect", "DESIGN.md §4 C12"),
  "C19": ("fault_enumeration", "guard-page interposition of the reader's mmap (ld --wrap) + field/truncation mutation enumeration; forked child outcome classification (plain and ASan builds)",
          "The file image is placed between two 8 GiB PROT_NONE regions (end-aligned and start-aligned), so any access outside the file's bytes during mtbl_reader_init/_init_fd is a SIGSEGV. Enumerated: every trailer field against a boundary value set, magic swaps, index length prefix (varint and fixed32) against the value set and 1-byte corruptions, truncations, head cuts, all lengths 512..544, seeded random files; verify_checksums on and off. Plus forgeries that keep redundant trailer fields consistent with each other and random field pairs/triples.",
@@ -48,7 +48,7 @@ CHECKS = {
          "The merger source is treated as one table holding the merged content: derived query sets (incl. first/last key of every source) for get/get_prefix/get_range; the complete product of ways-to-reach-a-position x seek targets (always including the key just returned, backwards after exhaustion, keys that need merging) on small families; random 40-200 op histories on up to four interleaved merger iterators with one-off merge-function failures injected (the call fails, stays failed until a seek, a retry by seek yields the full fold); merge-function mode and dupsort mode.",
          "trusted: model in harness/family.h + itercheck.h", "DESIGN.md §4 C05"),
  "C06": ("exploration", "runtime reference-model monitor of the sorter with mkstemp interposed (ld --wrap) to observe every spill: location, count and deadline; MTBL_VERIF hook for tiny chunks",
-         "Add sequences (random/sorted/reverse/all-equal/duplicates adjacent or spread, empty key, empty input) x memory limits from one entry per chunk to everything in memory x pools {none,0,1,2,4,8}; output through the iterator (full or abandoned) or mtbl_sorter_write compared with the model (multiset merge); every mkstemp template must lie in the configured temp dir, buffered payload must stay below the limit after every add (synchronous spills), spill count has a lower bound, temp dir empty afterwards; add/write refused after iteration began; with a failing merge function either a call reports the failure or the output must be complete. The library built without the hook is run for requests below its 10 MiB minimum (c06min); thorough adds an entry above 2 GiB.",
+         "Add sequences (random/sorted/reverse/all-equal/duplicates adjacent or spread, empty key, empty input) x memory limits from one entry per chunk to everything in memory x pools {none,0,1,2,4,8}; output through the iterator (full or abandoned) or mtbl_sorter_write compared with the model (multiset merge); every mkstemp template must lie in the configured temp dir, buffered payload must stay below the limit after every add (synchronous spills), spill count has a lower bound, temp dir empty afterwards; add/write refused after iteration began; with a failing merge function either a call reports the failure or the output must be complete. The library built without the hook is run for requests below its 10 MiB minimum (c06min); thorough adds an entry above 2 GiB. A second, shrinking merge function (smaller operand), callbacks that need 640 KiB of stack and temp directories with 300-420-byte paths are part of the generated configurations.",
          "trusted: mkstemp shim; loosest reading of 'buffered entries reach the memory limit' (payload bytes)", "DESIGN.md §4 C06"),
  "C07": ("exploration", "event-trace monitor: virtual CLOCK_MONOTONIC and stat(setfile) interposed (ld --wrap), model of the shared view updated at each observed reload attempt, snapshot-shadowed iterators, ASan",
          "Random and scripted histories over 1-5 handles (dups with other intervals/filters/merge options), table files created/replaced/deleted, setfile rewrites, clock advances, reload/reload_now, iterators opened/advanced/sought/closed, handles destroyed in any order. P1: no stat(setfile) while an iterator is open; P2: forced/interval reload deadline at source operations; P3: a new iterator returns merge(view as of latest reload, filtered per handle); P4: older iterators keep their snapshot; ASan catches any use of an unloaded reader.",
@@ -60,7 +60,7 @@ CHECKS = {
          "Process runs under -fsanitize=thread: 2-6 caller threads each with a pooled writer and pooled multi-chunk sorter sharing one pool; 4-12 threads on one open reader through private iterators (scan, get, get_prefix, get_range, seek storms) for all compression types and verify on/off; concurrent mtbl_crc32c. Every TSan data-race report whose accessing frame is library code is a violation.",
          "trusted: gcc TSan; races only on executed access pairs", "DESIGN.md §4 C14"),
  "C18": ("exploration", "stateful API-history generator with dependency-consistent teardown; /proc/self/fd, file-backed maps, /proc/self/task and directory snapshots; LeakSanitizer; ASan live-byte counter over repeated identical histories",
-         "Histories create and use pools, writers (pooled, refused adds), readers (valid / non-table / short), mergers (incl. failing callback), iterators of all kinds on readers/mergers/filesets/sorters (untouched, half-drained, drained, sought), sorters (1 entry per chunk .. in memory, pooled or not, destroyed unused / before iterating / after iteration / after a reported failure), filesets with dups and reloads; everything is destroyed in a random order consistent with the dependency graph; then descriptors, mappings, threads, temp dir, LSan and live heap bytes (steady state over 3-4 repetitions) are compared with the state before. Refused opens include valid tables with a forged index offset / index length (refused after the mapping exists).",
+         "Histories create and use pools, writers (pooled, refused adds), readers (valid / non-table / short), mergers (incl. failing callback), iterators of all kinds on readers/mergers/filesets/sorters (untouched, half-drained, drained, sought), sorters (1 entry per chunk .. in memory, pooled or not, destroyed unused / before iterating / after iteration / after a reported failure), filesets with dups and reloads; everything is destroyed in a random order consistent with the dependency graph; then descriptors, mappings, threads, temp dir, LSan and live heap bytes (steady state over 3-4 repetitions) are compared with the state before. Refused opens include valid tables with a forged index offset / index length (refused after the mapping exists). Histories also contain user-defined sources with a free callback, mtbl_fileset_partition, codec calls on damaged input, a reload whose fopen fails, and repeated mtbl_sorter_iter calls.",
          "trusted: ASan allocator statistics and LeakSanitizer; anonymous mappings ignored by construction", "DESIGN.md §4 C18"),
  "C16": ("exploration", "runtime differential monitor vs textbook LEB128 + ASan exact-size buffers; exhaustive 2^32 enumeration in thorough",
          "Every 32-bit value (thorough: all 2^32, quick: 64 full 2^20 ranges) and boundary/walking/random 64-bit values are encoded, decoded and measured by the real functions and compared byte-for-byte with a textbook LEB128 / explicit little-endian reference; buffers are exact-size heap allocations under ASan so any access beyond the encoding is a report. Exhaustive for the 32-bit half, sampled for 64 bits. length_packed is also called with bounds of 2^31..2^33+12 over a really mapped region.",
